@@ -384,7 +384,7 @@ impl Display for Expr {
             Expr::Reference(ident) => write!(formatter, "{ident}"),
             Expr::Symbol(ident) => write!(formatter, ":{ident}"),
             Expr::Function(ident, param) => write!(formatter, "{ident}({param})"),
-            Expr::Index(left, right) => write!(formatter, "({}.{right})", Operand(left)),
+            Expr::Index(left, right) => write!(formatter, "({}.{right})", Indexed(left, right)),
             Expr::If(check, true_case, false_case) => {
                 write!(formatter, "(if {check} then {true_case} else {false_case})")
             }
@@ -471,6 +471,30 @@ impl Display for Operand<'_> {
         match self.0 {
             Expr::Not(_) | Expr::Neg(_) => write!(formatter, "({})", self.0),
             expr => write!(formatter, "{}", BitOperand(expr)),
+        }
+    }
+}
+
+/// Display an indexed expression. A float or decimal literal, or a name that
+/// reads like the start of one, is parenthesised in front of a numeric index,
+/// otherwise `f5` followed by `.0` would be read back as the literal `f5.0`
+struct Indexed<'a>(&'a Expr, &'a Index);
+
+impl Display for Indexed<'_> {
+    fn fmt(&self, formatter: &mut std::fmt::Formatter<'_>) -> std::fmt::Result {
+        let literal_prefix = |name: &str| {
+            let mut chars = name.chars();
+            matches!(chars.next(), Some('f' | 'd')) && chars.all(|c| c.is_ascii_digit())
+        };
+        let merges = match (self.0, self.1) {
+            (Expr::Value(Value::Float(_) | Value::Decimal(_)), Index::Vec(_)) => true,
+            (Expr::Reference(name) | Expr::Symbol(name), Index::Vec(_)) => literal_prefix(name),
+            _ => false,
+        };
+        if merges {
+            write!(formatter, "({})", self.0)
+        } else {
+            write!(formatter, "{}", Operand(self.0))
         }
     }
 }
